@@ -695,10 +695,10 @@ RunJobT(const std::string &kind, int part, bool thorough)
       ns = {199, 200, 201, 255, 256, 257, 999, 1000, 1001, 1100, 2000, 10000};
     } else if (part == 2 && thorough) {
       ns = {100000};
-    } else if (part == 3 && (thorough || !exact)) {
+    } else if (part == 3) {
       ns = {1000000};
-    } else if (part == 4 && thorough) {
-      ns = {3000000};
+    } else if (part == 4) {
+      ns = {3000000, 5000000};
     } else if (part == 5 && thorough) {
       ns = {131, 150, 300, 500, 777, 1500, 5000, 50000};
     }
@@ -707,7 +707,7 @@ RunJobT(const std::string &kind, int part, bool thorough)
     if (part >= 3) {
       // very large n: coarser alpha grid plus the shortcut neighbourhood
       alphas = {0.0, 0.5, 0.85, 0.99, 1.0 - 1e-15, 1.0 - 1e-9, std::nextafter(1.0, 0.0), 1.0, std::nextafter(1.0, 2.0), 1.0 + 1e-9, 1.05, 1.1, 1.2, 1.5, 2.0, 3.0, 50.0};
-      if (!thorough) alphas = {0.5, 0.9, 1.0, 1.05, 1.1, 1.2, 2.0};
+      if (!thorough) alphas = {0.0, 0.5, 0.9, 1.0, 1.05, 1.1, 1.2, 1.3, 2.0, 3.0};
     }
     for (uint64_t n : ns)
       for (double a : alphas) CheckC18<T>(n, a, st, exact);
@@ -837,9 +837,9 @@ main(int argc, char **argv)
   } else if (prop == "C18") {
     for (const char *kind : {"c18e", "c18a"})
       for (const char *t : types)
-        for (int part = 0; part < (thorough ? 6 : 4); ++part) {
+        for (int part = 0; part < (thorough ? 6 : 5); ++part) {
           if (!thorough && part == 2) continue;
-          if (!thorough && part == 3 && (std::string(kind) != "c18a" || std::string(t) != "u64")) continue;  // quick: one large-n approximate job
+          if (!thorough && part >= 3 && std::string(t) != "u64") continue;  // quick: the large-n jobs (10^6, 3*10^6 bins) for one type, both classes
           if (thorough && part >= 2 && part <= 4 && std::string(t) != "u64" && std::string(t) != "i32") continue;  // large n: two types suffice (same code path)
           jobs.push_back(vs::Job{std::string(kind) + ":" + t + ":" + std::to_string(part), ""});
         }
